@@ -43,6 +43,10 @@ for m in sel:
         if s.count(m["old"]) < 1:
             print(f"BROKEN-MUTANT {m['id']}: pattern not found"); bad += 1; continue
         s = s.replace(m["old"], m["new"], m.get("count", 1))
+        for e in m.get("more", []):  # further replacements in the same file
+            if s.count(e["old"]) < 1:
+                print(f"BROKEN-MUTANT {m['id']}: pattern not found ({e['old'][:30]})"); bad += 1
+            s = s.replace(e["old"], e["new"], 1)
         open(p, "w").write(s)
         tier = m.get("tier", "quick")
         r = subprocess.run([os.path.join(verif, "bin/govc"), "check", "-prop", m["prop"], "-tier", tier, "-repo", repo, "-verif", os.path.join(tmp, "v"), "-no-evidence"] + (["-only", only_of(m)] if only_of(m) else []),
